@@ -36,17 +36,30 @@ FAMILIES = [
 def generated(rng, n):
     out = []
     i = 0
-    while len(out) < n and i < 20 * n:
-        fam, tmpls = FAMILIES[i % len(FAMILIES)]
-        i += 1
+    def one(fi):
+        fam, tmpls = FAMILIES[fi % len(FAMILIES)]
         t = rng.choice(tmpls)
-        s = t.replace("%s", rng.choice(R), 1).replace("%s", rng.choice(R))
+        return fam, t.replace("%s", rng.choice(R), 1).replace("%s", rng.choice(R))
+
+    while len(out) < n and i < 20 * n:
+        fam, s = one(i)
+        i += 1
+        if i % 4 == 0:  # two families side by side (e.g. an enolate next to an enol)
+            fam2, s2 = one(rng.randrange(len(FAMILIES)))
+            fam, s = fam + "+" + fam2, s + "." + s2
+        elif i % 7 == 0:  # ... or in one molecule, joined through a methylene bridge
+            fam2, s2 = one(rng.randrange(len(FAMILIES)))
+            if "." not in s and "." not in s2:
+                fam, s = fam + "~" + fam2, "C(%s)%s" % (s, s2)
         if oracle.in_domain_smiles(s):
             out.append((fam, s))
     return out
 
 
 def orders(s, rng, k):
+    """the same molecule in k random atom orders, plus one atom-mapped / explicit spelling and one with an
+    isotope label on a carbon (bracket atoms without implicit hydrogens)"""
+    from vgen import molgen
     m = oracle.parse(s)
     out = [s]
     for _ in range(k):
@@ -54,6 +67,17 @@ def orders(s, rng, k):
             out.append(Chem.MolToSmiles(m, canonical=False, doRandom=True))
         except Exception:
             pass
+    try:
+        out += molgen.respell(m, rng, k=1, maps=True)
+        cs = [a for a in m.GetAtoms() if a.GetSymbol() == "C"]
+        if cs:
+            m2 = Chem.Mol(m)
+            m2.GetAtomWithIdx(rng.choice(cs).GetIdx()).SetIsotope(13)
+            lab = Chem.MolToSmiles(m2, canonical=False, doRandom=True)
+            if oracle.in_domain_smiles(lab):
+                out.append(lab)
+    except Exception:
+        pass
     return list(dict.fromkeys(out))
 
 
